@@ -6,10 +6,6 @@ KNOWN = [{
     "id": "C07-late-lock",
     "match": lambda f: "[late-lock]" in f["what"],
     "text": "finalize_tx of a late-locked send selects and locks inputs before the reply's signatures are verified: a forged Standard2 reply leaves the inputs Locked (cancellable) although finalize fails",
-}, {
-    "id": "C07-refused-receive-leaves-record",
-    "match": lambda f: "[refused-receive-leaves-record]" in f["what"],
-    "text": "receive_tx writes the recipient's output and log entry before the slate's signature data is checked: a slate refused for a bad partial signature leaves an Unconfirmed output and a received entry behind, and the genuine slate with that id is then refused as already received",
 }]
 
 
